@@ -359,7 +359,12 @@ def cli(tier, r, case, only=None):
             path = os.path.join(tmp, 'g%d.json' % gi)
             with open(path, 'w') as f:
                 json.dump(fggs.fgg_to_json(g), f)
-            for opts in (['-d', '-G', '-m', 'fixed-point'], ['-d', '-G', '-j', '-m', 'newton'], ['-d', '-t']):
+            oshape = oracles.ext_shape(ir, ir['start'])
+            ow = 2.0
+            for sz in reversed(oshape):
+                ow = [ow] * sz
+            for opts in (['-d', '-G', '-m', 'fixed-point'], ['-d', '-G', '-j', '-m', 'newton'], ['-d', '-t'],
+                         ['-d', '-G', '-m', 'fixed-point', '-o', json.dumps(ow)]):
                 if '-j' in opts and not jp_clean(ir):
                     continue
                 outs = {}
@@ -383,7 +388,8 @@ def cli(tier, r, case, only=None):
                     if okk:
                         for name, val in lines[1:]:
                             nm = name[len('grad['):-1] if name.startswith('grad[') else name
-                            if nm in api[2] and api[2][nm] is not None and not close(val, api[2][nm], 1e-6):
+                            scale = 2.0 if '-o' in opts else 1.0        # -o weights every element of the sum-product by 2
+                            if nm in api[2] and api[2][nm] is not None and not close(val, scaled(api[2][nm], scale), 1e-6):
                                 okk = False
                     if not okk:
                         r.bad('cli-disagrees-with-api', 'bin/sum_product.py', 'cli', 'options %r: CLI %r, API %r; rules=%r' % (opts, lines, api, ir['rules']), case, key)
@@ -391,6 +397,10 @@ def cli(tier, r, case, only=None):
                 r.ok(key, outcome='cli', nontrivial=True)
     finally:
         shutil.rmtree(tmp, ignore_errors=True)
+
+
+def scaled(x, c):
+    return [scaled(y, c) for y in x] if isinstance(x, list) else (None if x is None else x * c)
 
 
 def parse_cli(text):
